@@ -177,3 +177,30 @@ Theorem grpc_abort_refuted_orig :
   exists cs n fuel src,
     sr_source true n fuel (sr_init cs true) = Some src /\ src_fails src = false /\ src_bytes src = concat cs.
 Proof. exists [[1%N; 2%N]], 4, 3, [Data [1%N; 2%N]]. vm_compute. auto. Qed.
+
+(* the defect D4 concerned aborted streams only: on a stream that ends cleanly the original reader and the repaired
+   one are the same function *)
+Lemma sr_read_orig_clean {A} (st : srst A) n :
+  sr_aborted st = false -> sr_read true st n = sr_read false st n.
+Proof.
+  intros Hab. unfold sr_read. destruct (sr_fill n (sr_chunks st) (sr_buf st)) as [[cs' buf'] e].
+  rewrite Hab. rewrite !andb_false_r. reflexivity.
+Qed.
+
+Lemma sr_read_keeps_aborted {A} orig (st st' : srst A) n r :
+  sr_read orig st n = (st', r) -> sr_aborted st' = sr_aborted st.
+Proof.
+  unfold sr_read. destruct (sr_fill n (sr_chunks st) (sr_buf st)) as [[cs' buf'] e].
+  destruct (e && sr_aborted st && negb orig); [intros H; inversion H; reflexivity|].
+  destruct buf'; intros H; inversion H; reflexivity.
+Qed.
+
+Theorem sr_source_orig_clean n : forall fuel st,
+  sr_aborted st = false -> sr_source true n fuel st = sr_source false n fuel st.
+Proof.
+  induction fuel as [|f IH]; intros st Hab; [reflexivity|]. simpl.
+  rewrite (sr_read_orig_clean st n Hab).
+  destruct (sr_read false st n) as [st' r] eqn:Hr. destruct r; try reflexivity.
+  rewrite IH; [reflexivity|]. rewrite (sr_read_keeps_aborted _ _ _ _ _ Hr). exact Hab.
+Qed.
+
